@@ -355,7 +355,11 @@ type XStyle struct {
 	Shuffle          bool // property order
 	TagSpace         bool // white space inside tags before '>' (start tags without attributes, end tags)
 	EqSpace          bool // white space around the '=' of attributes (XML: Eq ::= S? '=' S?); set by the caller from a side lane
-	Seed             uint64
+	// AttrPad > 0: runs of white space up to that length behind attribute values (and a quarter of
+	// it on either side of '='); set by the caller from a side lane. Below the 1538 bytes the
+	// reader buffers.
+	AttrPad int
+	Seed    uint64
 }
 
 // DrawXStyle draws the serialiser's choices (every feature separately, so that a failing case
@@ -386,6 +390,13 @@ func (r *XRecord) Serialise(l *core.Lane, st XStyle) []byte {
 				n += 120 + f.Intn(30) // runs longer than the first look-ahead step
 			}
 		}
+		var sb strings.Builder
+		for i := 0; i < n; i++ {
+			sb.WriteByte(wsSet[f.Intn(len(wsSet))])
+		}
+		return sb.String()
+	}
+	pad := func(n int) string {
 		var sb strings.Builder
 		for i := 0; i < n; i++ {
 			sb.WriteByte(wsSet[f.Intn(len(wsSet))])
@@ -488,7 +499,13 @@ func (r *XRecord) Serialise(l *core.Lane, st XStyle) []byte {
 		if st.EqSpace && f.Intn(2) == 0 {
 			eq = []string{"", " ", "\t", "  "}[f.Intn(4)] + "=" + []string{"", " ", "\n", "  "}[f.Intn(4)]
 		}
+		if st.AttrPad > 0 && f.Intn(2) == 0 {
+			eq = pad(f.Intn(st.AttrPad/4+1)) + "=" + pad(f.Intn(st.AttrPad/4+1))
+		}
 		sb.WriteString(ws(1) + p.NS + ":" + p.Name + eq + q + p.Val + q)
+		if st.AttrPad > 0 && f.Intn(2) == 0 {
+			sb.WriteString(pad(st.AttrPad - f.Intn(st.AttrPad/4+1))) // white space behind the value
+		}
 	}
 	unknownAttr()
 	if len(elems) == 0 && f.Intn(2) == 0 {
